@@ -156,7 +156,12 @@ theorem allocateOrOccupy_ordinary (s : Sys) (n : NodeObj) (r : Bool) (ws : List 
     · simp [ordinary]
     · split
       · simp [ordinary]
-      · exact updateCIDRsAllocation_ordinary _ _ _ _ _
+      · split
+        · simp only
+          split
+          · exact updateCIDRsAllocation_ordinary _ _ _ _ _
+          · exact updateCIDRsAllocation_ordinary _ _ _ _ _
+        · exact updateCIDRsAllocation_ordinary _ _ _ _ _
 
 theorem procNode_ordinary (s : Sys) (n : String) (r : Bool) (ws : List WOut) : ordinary (procNode s n r ws).2.res := by
   unfold procNode
